@@ -323,7 +323,7 @@ class OracleGeo:
         return out
 
     # ------------------------------------------------- surface normal at a point
-    def normal_at(self, p, side, guard=1e-6):
+    def normal_at(self, p, side, guard=1e-6, edge_rel=2e-4):
         """True unit normal (GLOBAL frame) of the surface the point p lies on.
 
         `side` is a nearby point strictly inside a volume adjacent to that surface (it selects
@@ -333,7 +333,7 @@ class OracleGeo:
         differences of the quadric value, so independent of any hand-written normal formula) is
         rotated up to the global frame with the daughter-to-parent matrices of the chain.
         Returns dict(valid, n, dist, level, why).  Invalid when p is not within 1e-5 (relative) of
-        any surface, or when a second, non-parallel surface is also within 100*guard (edge/corner),
+        any surface, or when a second, non-parallel surface is also within edge_rel (edge/corner),
         or when `side` cannot be located."""
         P = np.asarray(p, float).copy()
         S = np.asarray(side, float).copy()
@@ -396,11 +396,124 @@ class OracleGeo:
         if best[0] > 1e-5:
             return dict(valid=False, why="not-on-surface", dist=best[0])
         for c in cands[1:]:
-            if c[0] > 100 * guard:
+            if c[0] > edge_rel:
                 break
             if abs(float(np.dot(c[1], best[1]))) < 1 - 1e-6:
                 return dict(valid=False, why="edge", dist=best[0])
         return dict(valid=True, n=best[1] / np.linalg.norm(best[1]), dist=best[0], level=best[2], why="")
+
+    # --------------------------------------- nearest points of the surrounding surfaces
+    @staticmethod
+    def _grad(st, d, x, h):
+        g = np.zeros(3)
+        for ax in range(3):
+            dp = np.zeros(3)
+            dp[ax] = h
+            g[ax] = (surf_eval(st, d, (x + dp)[None, :])[0][0] - surf_eval(st, d, (x - dp)[None, :])[0][0]) / (2 * h)
+        return g
+
+    def _closest_on_surface(self, st, d, P):
+        """A point of {f = 0} close to P (ideally the closest): alternate Newton steps onto the
+        surface with damped tangential slides towards P.  Whatever it converges to, the result is
+        ON the surface (|f|/|grad f| < 1e-9 relative, else None), so |x - P| is a true UPPER bound
+        of the distance from P to that surface."""
+        scale = max(1.0, float(np.abs(P).max()))
+        h = 1e-5 * scale
+        best = None
+        starts = [P]
+        g0 = self._grad(st, d, P, h)
+        n0 = np.linalg.norm(g0)
+        if n0 > _TINY:
+            f0 = surf_eval(st, d, P[None, :])[0][0]
+            starts.append(P - (f0 / (n0 * n0)) * g0)
+        for x0 in starts:
+            x = np.array(x0, float)
+            ok = True
+            for _ in range(80):
+                f = surf_eval(st, d, x[None, :])[0][0]
+                g = self._grad(st, d, x, h)
+                gn2 = float(g @ g)
+                if gn2 < _TINY or not np.all(np.isfinite(x)):
+                    ok = False
+                    break
+                x = x - (f / gn2) * g
+                g = self._grad(st, d, x, h)
+                gn = np.linalg.norm(g)
+                if gn < _TINY:
+                    ok = False
+                    break
+                gh = g / gn
+                v = P - x
+                vt = v - (v @ gh) * gh
+                if np.linalg.norm(vt) < 1e-10 * scale:
+                    break
+                x = x + 0.7 * vt
+            if not ok:
+                continue
+            for _ in range(6):
+                f = surf_eval(st, d, x[None, :])[0][0]
+                g = self._grad(st, d, x, h)
+                gn2 = float(g @ g)
+                if gn2 < _TINY:
+                    break
+                x = x - (f / gn2) * g
+            f, gm = surf_eval(st, d, x[None, :])
+            if not np.all(np.isfinite(x)) or abs(f[0]) / max(gm[0], _TINY) > 1e-9 * scale:
+                continue
+            dist = float(np.linalg.norm(x - P))
+            if best is None or dist < best[0]:
+                best = (dist, x)
+        return best
+
+    def nearest_dirs(self, p, guard=1e-6):
+        """For an interior point p: for every surface of every unit on p's chain of universes, a point
+        of that surface near p (see _closest_on_surface) as (distance, unit direction in the GLOBAL
+        frame, level, surface type), sorted by distance.  Each distance is an upper bound of the
+        distance from p to that surface; whether the surface actually bounds p's volume there is
+        decided by point location of points along that direction (done by the caller)."""
+        P = np.asarray(p, float).copy()
+        Rup = np.eye(3)
+        uid, level = 0, 0
+        out = []
+        while True:
+            u = self.universes[uid]
+            if u["type"] == "rectarray":
+                cell = []
+                for ax, g in enumerate(u["grid"]):
+                    e = np.zeros(3)
+                    e[ax] = 1.0
+                    for gv in g[1:-1]:
+                        if abs(gv - P[ax]) > 0:
+                            out.append((abs(gv - P[ax]), Rup @ (e * np.sign(gv - P[ax])), level, "grid"))
+                    if P[ax] <= g[0] or P[ax] >= g[-1]:
+                        return sorted(out, key=lambda c: c[0])
+                    cell.append(int(np.clip(np.searchsorted(g, P[ax], side="right") - 1, 0, len(g) - 2)))
+                nx, ny, nz = u["dims"]
+                daughter = u["daughters"][(cell[0] * ny + cell[1]) * nz + cell[2]]
+            else:
+                for st, d in u["surfaces"]:
+                    c = self._closest_on_surface(st, d, P)
+                    if c is not None and c[0] > 0:
+                        out.append((c[0], Rup @ ((c[1] - P) / c[0]), level, st))
+                r = dict(valid=np.ones(1, bool), outside=np.zeros(1, bool), why=[""], detail=[None],
+                         path=[[]], name=[None], guard=guard)
+                gabs = guard * np.maximum(1.0, np.abs(P[None, :]).max(axis=1))
+                groups = self._unit_volumes(uid, u, np.arange(1), P[None, :], gabs, r)
+                if not r["valid"][0] or not groups:
+                    break
+                daughter = groups[0][3]
+            if daughter is None:
+                break
+            d_uid, R, t = daughter
+            P = P - t
+            if R is not None:
+                P = P @ R
+                Rup = Rup @ R
+            uid = d_uid
+            level += 1
+            if level > 64:
+                break
+        return sorted(out, key=lambda c: c[0])
 
     def locate_labels(self, pts, guard=1e-6):
         """Deepest C++-style label per point (None where invalid)."""
